@@ -41,9 +41,15 @@ Definition fits_hdr {A} (r : list A) : bool := (len4 r <=? max_hdr)%N.
 (* V: length word representable (empty records allowed) *)
 Definition legal_V (rs : list (list N)) : bool := forallb fits_hdr rs.
 
-(* VB: every record non-empty, block length word representable (a block may hold any number of records) *)
-Definition legal_block (b : list (list N)) : bool :=
-  forallb (fun r => 1 <=? length r) b && (N.of_nat (block_len b) <=? max_hdr)%N.
+(* VB: the block's length word is representable, nothing else.  A block may hold any number of records, none
+   included, and a record may have no data bytes (length word 4) at any position, as in V.  The bound on the block
+   is all that is needed: a block holds 4 bytes of its own and each record whole, so every record's length word
+   is representable too (len4 r <= block_len b; Proofs/RecfmP.v block_body_bytes).  It is needed only for the image
+   to be a byte string, i.e. for the writer's struct.pack to succeed (C05_images_are_bytes); the readers' round
+   trip itself holds for any list of blocks.
+   Until fix eee0fb2 this predicate also demanded every record to be non-empty, which hid a defect of
+   RECFM_VB._data_iter (an empty record standing last in its block raised AssertionError; C05_VB_empty_last_old_refuted). *)
+Definition legal_block (b : list (list N)) : bool := (N.of_nat (block_len b) <=? max_hdr)%N.
 Definition legal_VB (blocks : list (list (list N))) : bool := forallb legal_block blocks.
 
 (* N: every record is non-empty and fits the reader's buffer of B elements *)
